@@ -224,7 +224,20 @@ def tpsSeq (c : Case) : Verdict :=
     let tag := s!"{c.input.getD "mode" "?"},k={k}"
     match (List.range k).findSome? (seqOne c tag) with
     | some v => v
-    | none => .ok tag
+    | none =>
+      -- all-Marshal sequences are also run through the heap model (one memory, results read at the
+      -- end, in the order the calls were made)
+      if c.input.getD "mode" "?" ≠ "marshal" then .ok tag else
+      let order := (listOf (c.input.getD "make" "-")).filterMap String.toNat?
+      match order.mapM (fun i => (listOf (c.output.getD s!"raw{i}" "-")).mapM parseRaw) with
+      | none => .bad "tps_seq: bad raw lists"
+      | some lists =>
+        match hMarshalSeq (fun n => n) [] lists with
+        | .panic => .diff tag "heap-model=panic"
+        | .ok (hN, rs) =>
+          let views := rs.map fun r => "m:" ++ hex (hView hN r)
+          let helds := order.map fun i => c.output.getD s!"held{i}" "?"
+          if views = helds then .ok tag else .diff tag s!"heap-model={",".intercalate views}"
 
 /-- families served by this module (collected by the generated `DrvAll`). -/
 def families : List (String × (Case → Verdict)) := [("varint", varint), ("varint_read", varintRead), ("tps", tps), ("tps_seq", tpsSeq)]
